@@ -133,10 +133,11 @@ const (
 	hPoolDo
 	hPoolPing
 	hTwoQueries
+	hStaleRelease
 	nHolderProgs
 )
 
-var holderNames = [nHolderProgs]string{"ok", "exception", "transport-error", "cancelled", "double-release", "pool.Do", "pool.Ping", "two-queries"}
+var holderNames = [nHolderProgs]string{"ok", "exception", "transport-error", "cancelled", "double-release", "pool.Do", "pool.Ping", "two-queries", "stale-release-after-reacquire"}
 
 type poolScn struct {
 	maxConns int
@@ -182,6 +183,7 @@ func bodyPool(s poolScn) Body {
 		}
 		fin := make(chan struct{}, len(s.progs)+1)
 		var vmu sync.Mutex
+		holding := 0 // holders between Acquire and Release (harness count, never above the true one)
 		viol, vdetail := "", ""
 		setViol := func(k, d string) {
 			vmu.Lock()
@@ -217,12 +219,41 @@ func bodyPool(s poolScn) Body {
 				w.ev("%s:poolping-done:%s", h, errClass(perr))
 				return
 			}
+			if prog == hStaleRelease {
+				// one goroutine, two handles: release the first, acquire again, release the FIRST
+				// handle once more — that must not touch the connection the second handle owns
+				c1, aerr := p.Acquire(ctx)
+				if aerr != nil {
+					w.ev("%s:acquire-failed:%v", h, aerr)
+					return
+				}
+				c1.Release()
+				c2, aerr := p.Acquire(ctx)
+				if aerr != nil {
+					w.ev("%s:acquire-failed:%v", h, aerr)
+					return
+				}
+				w.ev("%s:acquired", h)
+				before := p.Stat().AcquiredResources()
+				c1.Release()
+				if after := p.Stat().AcquiredResources(); after < before {
+					setViol(name+"/stale-release-affects-other-handle", fmt.Sprintf("holder %s released an already released handle again while holding a second one: acquired resources went from %d to %d", h, before, after))
+				}
+				derr := do(h, c2, h+"-q1", "SELECT 1", ctx)
+				w.ev("%s:do:%s", h, errClass(derr))
+				w.ev("%s:release", h)
+				c2.Release()
+				return
+			}
 			c, aerr := p.Acquire(ctx)
 			if aerr != nil {
 				w.ev("%s:acquire-failed:%v", h, aerr)
 				return
 			}
 			w.ev("%s:acquired", h)
+			vmu.Lock()
+			holding++
+			vmu.Unlock()
 			body := "SELECT 1"
 			qctx := ctx
 			switch prog {
@@ -245,6 +276,9 @@ func bodyPool(s poolScn) Body {
 				derr = do(h, c, h+"-q2", "SELECT 1", ctx)
 				w.ev("%s:do2:%s", h, errClass(derr))
 			}
+			vmu.Lock()
+			holding--
+			vmu.Unlock()
 			w.ev("%s:release", h)
 			c.Release()
 			if prog == hDoubleRelease {
@@ -370,7 +404,7 @@ func (w *poolWorld) openConns() int {
 
 // C11 — a pooled connection has one holder; dead or expired ones are never reissued.
 func C11(c *vk.Ctx) {
-	c.Rule("pool scenarios = N in {2, 3} holder threads x MaxConns in {1, 2}, each holder running one program of {Acquire-Do(ok)-Release, Do answered by an exception, Do ending in a transport error, Do with a cancelled context, Release three times, Pool.Do, Pool.Ping, two queries}, optionally a thread calling Pool.Close concurrently; plus health-check scenarios (period 1 s, idle 2 s, lifetime 5 s of fake time). The real chpool + puddle (instrumented at API granularity) + ch.Dial run under the scheduler; what a holder does on its own connection is a quiet region. All interleavings of the pool-level steps up to the preemption bound (quick 1, thorough 2). Oracle: never two holders of one connection, a connection released broken is never acquired again and never written to, open connections <= MaxConns at every dial, no panic on repeated Release, nothing acquired at the end, after Close every dialled connection is closed, idle connections are destroyed by the health check. distinct_nontrivial = executions.")
+	c.Rule("pool scenarios = N in {2, 3} holder threads x MaxConns in {1, 2}, each holder running one program of {Acquire-Do(ok)-Release, Do answered by an exception, Do ending in a transport error, Do with a cancelled context, Release three times, Pool.Do, Pool.Ping, two queries, release-reacquire-release the first handle again}, optionally a thread calling Pool.Close concurrently; plus health-check scenarios (period 1 s, idle 2 s, lifetime 5 s of fake time). The real chpool + puddle (instrumented at API granularity) + ch.Dial run under the scheduler; what a holder does on its own connection is a quiet region. All interleavings of the pool-level steps up to the preemption bound (quick 1, thorough 2). Oracle: never two holders of one connection, a connection released broken is never acquired again and never written to, open connections <= MaxConns at every dial, no panic on repeated Release, nothing acquired at the end, after Close every dialled connection is closed, idle connections are destroyed by the health check. distinct_nontrivial = executions.")
 	quick := c.Quick()
 	bound := 1
 	if !quick {
@@ -384,7 +418,8 @@ func C11(c *vk.Ctx) {
 		for _, pr := range [][]int{{hDoubleRelease, hTransport}, {hDoubleRelease, hCancelled}, {hDoubleRelease, hPoolDo}, {hTransport, hTransport}, {hPoolDo, hPoolPing}, {hDoubleRelease, hDoubleRelease}} {
 			scns = append(scns, poolScn{maxConns: 1, progs: pr})
 		}
-		scns = append(scns, poolScn{maxConns: 2, progs: []int{hTransport, hDoubleRelease}})
+		scns = append(scns, poolScn{maxConns: 2, progs: []int{hOK, hPoolDo}})
+		scns = append(scns, poolScn{maxConns: 1, progs: []int{hStaleRelease}}, poolScn{maxConns: 1, progs: []int{hStaleRelease, hOK}})
 		scns = append(scns, poolScn{maxConns: 1, progs: []int{hTransport, hPoolDo}, closer: true})
 	} else {
 		for _, mc := range []int{1, 2} {
